@@ -2,10 +2,10 @@
     the statements for every allocation oracle also serve C08).
 
     * [Closed h]: no block with an identity at or above [h_next h] exists (allocator invariant);
-    * point-wise facts [nd_at]/[lk_at]/[str_at] (lookup + liveness);
-    * [Frame ns ss g g']: heap [g'] is heap [g] plus the NEW node blocks [ns] and the new string
+    * point-wise facts [nd_at]/[lk_at]/[str_is] (lookup + liveness);
+    * [Ext ns ss g g']: heap [g'] is heap [g] plus the NEW node blocks [ns] and the new string
       blocks [ss] (everything else — in particular every block of [g] — untouched);
-      closed under composition ([Frame_trans]) and under stores to the new node blocks;
+      closed under composition ([Ext_trans]) and under stores to the new node blocks;
     * stepping lemmas for the allocating primitives ([cJSON_New_Item], [cJSON_strdup]) and
       the stores on an arbitrary heap. *)
 From CJ Require Import Base Dbl Heap Forest ForestLemmas CoreSpec CoreDefs CoreRefineBase CoreRefine CoreRefineDelete.
@@ -28,127 +28,127 @@ Proof. intros C Hk. destruct (Pos.ltb_spec k (h_next h)) as [|Hle]; [done|]. by 
 (** * point-wise facts *)
 Definition nd_at h i (nd : ndata) : Prop := i ∈ h_live h /\ h_dat h !! i = Some nd.
 Definition lk_at h i (e : ptr * ptr) : Prop := i ∈ h_live h /\ h_lnk h !! i = Some e.
-Definition str_at h b (s : bytes) : Prop := b ∈ h_live h /\ h_str h !! b = Some s.
+Definition str_is h b (s : bytes) : Prop := b ∈ h_live h /\ h_str h !! b = Some s.
 
 (** * frames *)
-Record Frame (ns ss : list positive) (g g' : heap) : Prop := mkFrame {
-  fr_lnk : forall k, k ∉ ns -> h_lnk g' !! k = h_lnk g !! k;
-  fr_dat : forall k, k ∉ ns -> h_dat g' !! k = h_dat g !! k;
-  fr_str : forall k, k ∉ ss -> h_str g' !! k = h_str g !! k;
-  fr_live : forall k, k ∉ ns -> k ∉ ss -> (k ∈ h_live g' <-> k ∈ h_live g);
-  fr_own : forall k, (k < h_next g)%positive -> h_own g' !! k = h_own g !! k;
-  fr_next : (h_next g <= h_next g')%positive;
-  fr_req : h_req g <= h_req g';
-  fr_hooks : h_hooks g' = h_hooks g;
-  fr_new : forall b, b ∈ ns ++ ss ->
+Record Ext (ns ss : list positive) (g g' : heap) : Prop := mkExt {
+  xt_lnk : forall k, k ∉ ns -> h_lnk g' !! k = h_lnk g !! k;
+  xt_dat : forall k, k ∉ ns -> h_dat g' !! k = h_dat g !! k;
+  xt_str : forall k, k ∉ ss -> h_str g' !! k = h_str g !! k;
+  xt_live : forall k, k ∉ ns -> k ∉ ss -> (k ∈ h_live g' <-> k ∈ h_live g);
+  xt_own : forall k, (k < h_next g)%positive -> h_own g' !! k = h_own g !! k;
+  xt_next : (h_next g <= h_next g')%positive;
+  xt_req : h_req g <= h_req g';
+  xt_hooks : h_hooks g' = h_hooks g;
+  xt_new : forall b, b ∈ ns ++ ss ->
              (h_next g <= b)%positive /\ (b < h_next g')%positive /\ b ∈ h_live g' /\ h_own g' !! b = Some Lib;
-  fr_closed0 : Closed g;
-  fr_closed : Closed g'
+  xt_closed0 : Closed g;
+  xt_closed : Closed g'
 }.
 
-Lemma Frame_refl g : Closed g -> Frame [] [] g g.
+Lemma Ext_refl g : Closed g -> Ext [] [] g g.
 Proof. intros C. constructor; try done; try lia. intros b Hb. by apply elem_of_nil in Hb. Qed.
 
-Lemma Frame_old ns ss g g' k : Frame ns ss g g' -> k ∈ h_live g -> k ∉ ns /\ k ∉ ss.
+Lemma Ext_old ns ss g g' k : Ext ns ss g g' -> k ∈ h_live g -> k ∉ ns /\ k ∉ ss.
 Proof.
-  intros Fr Hk. pose proof (Closed_live _ _ (fr_closed0 _ _ _ _ Fr) Hk) as Hlt.
-  split; intros Hin; destruct (fr_new _ _ _ _ Fr k) as [Hge _]; try (apply elem_of_app; eauto); lia.
+  intros Fr Hk. pose proof (Closed_live _ _ (xt_closed0 _ _ _ _ Fr) Hk) as Hlt.
+  split; intros Hin; destruct (xt_new _ _ _ _ Fr k) as [Hge _]; try (apply elem_of_app; eauto); lia.
 Qed.
-Lemma Frame_old_lt ns ss g g' k : Frame ns ss g g' -> (k < h_next g)%positive -> k ∉ ns /\ k ∉ ss.
+Lemma Ext_old_lt ns ss g g' k : Ext ns ss g g' -> (k < h_next g)%positive -> k ∉ ns /\ k ∉ ss.
 Proof.
   intros Fr Hlt.
-  split; intros Hin; destruct (fr_new _ _ _ _ Fr k) as [Hge _]; try (apply elem_of_app; eauto); lia.
+  split; intros Hin; destruct (xt_new _ _ _ _ Fr k) as [Hge _]; try (apply elem_of_app; eauto); lia.
 Qed.
 
-Lemma nd_at_frame ns ss g g' i nd : Frame ns ss g g' -> nd_at g i nd -> nd_at g' i nd.
+Lemma nd_at_frame ns ss g g' i nd : Ext ns ss g g' -> nd_at g i nd -> nd_at g' i nd.
 Proof.
-  intros Fr [H1 H2]. destruct (Frame_old _ _ _ _ _ Fr H1) as [Hn Hs]. split.
-  - by apply (fr_live _ _ _ _ Fr).
-  - by rewrite (fr_dat _ _ _ _ Fr).
+  intros Fr [H1 H2]. destruct (Ext_old _ _ _ _ _ Fr H1) as [Hn Hs]. split.
+  - by apply (xt_live _ _ _ _ Fr).
+  - by rewrite (xt_dat _ _ _ _ Fr).
 Qed.
-Lemma lk_at_frame ns ss g g' i e : Frame ns ss g g' -> lk_at g i e -> lk_at g' i e.
+Lemma lk_at_frame ns ss g g' i e : Ext ns ss g g' -> lk_at g i e -> lk_at g' i e.
 Proof.
-  intros Fr [H1 H2]. destruct (Frame_old _ _ _ _ _ Fr H1) as [Hn Hs]. split.
-  - by apply (fr_live _ _ _ _ Fr).
-  - by rewrite (fr_lnk _ _ _ _ Fr).
+  intros Fr [H1 H2]. destruct (Ext_old _ _ _ _ _ Fr H1) as [Hn Hs]. split.
+  - by apply (xt_live _ _ _ _ Fr).
+  - by rewrite (xt_lnk _ _ _ _ Fr).
 Qed.
-Lemma str_at_frame ns ss g g' b s : Frame ns ss g g' -> str_at g b s -> str_at g' b s.
+Lemma str_is_frame ns ss g g' b s : Ext ns ss g g' -> str_is g b s -> str_is g' b s.
 Proof.
-  intros Fr [H1 H2]. destruct (Frame_old _ _ _ _ _ Fr H1) as [Hn Hs]. split.
-  - by apply (fr_live _ _ _ _ Fr).
-  - by rewrite (fr_str _ _ _ _ Fr).
+  intros Fr [H1 H2]. destruct (Ext_old _ _ _ _ _ Fr H1) as [Hn Hs]. split.
+  - by apply (xt_live _ _ _ _ Fr).
+  - by rewrite (xt_str _ _ _ _ Fr).
 Qed.
 
-Lemma Frame_ext ns ss ns' ss' g g' :
-  (forall k, k ∈ ns <-> k ∈ ns') -> (forall k, k ∈ ss <-> k ∈ ss') -> Frame ns ss g g' -> Frame ns' ss' g g'.
+Lemma Ext_ext ns ss ns' ss' g g' :
+  (forall k, k ∈ ns <-> k ∈ ns') -> (forall k, k ∈ ss <-> k ∈ ss') -> Ext ns ss g g' -> Ext ns' ss' g g'.
 Proof.
   intros Hn Hs Fr. constructor; try apply Fr.
-  - intros k Hk. apply (fr_lnk _ _ _ _ Fr). by rewrite Hn.
-  - intros k Hk. apply (fr_dat _ _ _ _ Fr). by rewrite Hn.
-  - intros k Hk. apply (fr_str _ _ _ _ Fr). by rewrite Hs.
-  - intros k Hk Hk'. apply (fr_live _ _ _ _ Fr); [by rewrite Hn|by rewrite Hs].
-  - intros b Hb. apply (fr_new _ _ _ _ Fr). rewrite elem_of_app in *. rewrite Hn, Hs. done.
+  - intros k Hk. apply (xt_lnk _ _ _ _ Fr). by rewrite Hn.
+  - intros k Hk. apply (xt_dat _ _ _ _ Fr). by rewrite Hn.
+  - intros k Hk. apply (xt_str _ _ _ _ Fr). by rewrite Hs.
+  - intros k Hk Hk'. apply (xt_live _ _ _ _ Fr); [by rewrite Hn|by rewrite Hs].
+  - intros b Hb. apply (xt_new _ _ _ _ Fr). rewrite elem_of_app in *. rewrite Hn, Hs. done.
 Qed.
 
-Lemma Frame_trans ns1 ss1 ns2 ss2 g g1 g2 :
-  Frame ns1 ss1 g g1 -> Frame ns2 ss2 g1 g2 -> Frame (ns1 ++ ns2) (ss1 ++ ss2) g g2.
+Lemma Ext_trans ns1 ss1 ns2 ss2 g g1 g2 :
+  Ext ns1 ss1 g g1 -> Ext ns2 ss2 g1 g2 -> Ext (ns1 ++ ns2) (ss1 ++ ss2) g g2.
 Proof.
   intros F1 F2.
-  pose proof (fr_next _ _ _ _ F1) as N1. pose proof (fr_next _ _ _ _ F2) as N2.
+  pose proof (xt_next _ _ _ _ F1) as N1. pose proof (xt_next _ _ _ _ F2) as N2.
   constructor.
   - intros k Hk. apply not_elem_of_app in Hk as [H1 H2].
-    rewrite (fr_lnk _ _ _ _ F2) by done. by apply (fr_lnk _ _ _ _ F1).
+    rewrite (xt_lnk _ _ _ _ F2) by done. by apply (xt_lnk _ _ _ _ F1).
   - intros k Hk. apply not_elem_of_app in Hk as [H1 H2].
-    rewrite (fr_dat _ _ _ _ F2) by done. by apply (fr_dat _ _ _ _ F1).
+    rewrite (xt_dat _ _ _ _ F2) by done. by apply (xt_dat _ _ _ _ F1).
   - intros k Hk. apply not_elem_of_app in Hk as [H1 H2].
-    rewrite (fr_str _ _ _ _ F2) by done. by apply (fr_str _ _ _ _ F1).
+    rewrite (xt_str _ _ _ _ F2) by done. by apply (xt_str _ _ _ _ F1).
   - intros k Hk Hk'. apply not_elem_of_app in Hk as [H1 H2]. apply not_elem_of_app in Hk' as [H3 H4].
-    rewrite (fr_live _ _ _ _ F2) by done. by apply (fr_live _ _ _ _ F1).
-  - intros k Hk. rewrite (fr_own _ _ _ _ F2) by lia. by apply (fr_own _ _ _ _ F1).
+    rewrite (xt_live _ _ _ _ F2) by done. by apply (xt_live _ _ _ _ F1).
+  - intros k Hk. rewrite (xt_own _ _ _ _ F2) by lia. by apply (xt_own _ _ _ _ F1).
   - lia.
-  - pose proof (fr_req _ _ _ _ F1). pose proof (fr_req _ _ _ _ F2). lia.
-  - rewrite (fr_hooks _ _ _ _ F2). apply F1.
+  - pose proof (xt_req _ _ _ _ F1). pose proof (xt_req _ _ _ _ F2). lia.
+  - rewrite (xt_hooks _ _ _ _ F2). apply F1.
   - intros b Hb.
     assert (Hcase : b ∈ ns1 ++ ss1 \/ b ∈ ns2 ++ ss2).
     { rewrite !elem_of_app in *. tauto. }
     destruct Hcase as [Hb1|Hb2].
-    + destruct (fr_new _ _ _ _ F1 b Hb1) as (A1 & A2 & A3 & A4).
-      destruct (Frame_old _ _ _ _ _ F2 A3) as [B1 B2].
+    + destruct (xt_new _ _ _ _ F1 b Hb1) as (A1 & A2 & A3 & A4).
+      destruct (Ext_old _ _ _ _ _ F2 A3) as [B1 B2].
       split_and!; [done|lia| |].
-      * by apply (fr_live _ _ _ _ F2).
-      * by rewrite (fr_own _ _ _ _ F2).
-    + destruct (fr_new _ _ _ _ F2 b Hb2) as (A1 & A2 & A3 & A4). split_and!; [lia|done..].
+      * by apply (xt_live _ _ _ _ F2).
+      * by rewrite (xt_own _ _ _ _ F2).
+    + destruct (xt_new _ _ _ _ F2 b Hb2) as (A1 & A2 & A3 & A4). split_and!; [lia|done..].
   - apply F1.
   - apply F2.
 Qed.
 
 (** a store to the link / data entry of a NEW node block keeps the frame *)
-Lemma Frame_upd_maps ns ss g g' L D :
-  Frame ns ss g g' ->
+Lemma Ext_upd_maps ns ss g g' L D :
+  Ext ns ss g g' ->
   (forall k, k ∉ ns -> L !! k = h_lnk g' !! k) ->
   (forall k, k ∉ ns -> D !! k = h_dat g' !! k) ->
-  Frame ns ss g (upd_maps g' L D).
+  Ext ns ss g (upd_maps g' L D).
 Proof.
   intros Fr HL HD. constructor; cbn; try apply Fr.
-  - intros k Hk. rewrite HL by done. by apply (fr_lnk _ _ _ _ Fr).
-  - intros k Hk. rewrite HD by done. by apply (fr_dat _ _ _ _ Fr).
-  - intros k Hk. cbn in Hk. destruct (fr_closed _ _ _ _ Fr k Hk) as (C1 & C2 & C3 & C4).
+  - intros k Hk. rewrite HL by done. by apply (xt_lnk _ _ _ _ Fr).
+  - intros k Hk. rewrite HD by done. by apply (xt_dat _ _ _ _ Fr).
+  - intros k Hk. cbn in Hk. destruct (xt_closed _ _ _ _ Fr k Hk) as (C1 & C2 & C3 & C4).
     assert (Hkn : k ∉ ns).
-    { intros Hin. destruct (fr_new _ _ _ _ Fr k) as (_ & ? & _); [apply elem_of_app; by left|lia]. }
+    { intros Hin. destruct (xt_new _ _ _ _ Fr k) as (_ & ? & _); [apply elem_of_app; by left|lia]. }
     split_and!; [done| | |done].
     + by rewrite HL.
     + by rewrite HD.
 Qed.
-Lemma Frame_st_lnk ns ss g g' i e :
-  Frame ns ss g g' -> i ∈ ns -> Frame ns ss g (upd_maps g' (<[i := e]> (h_lnk g')) (h_dat g')).
+Lemma Ext_st_lnk ns ss g g' i e :
+  Ext ns ss g g' -> i ∈ ns -> Ext ns ss g (upd_maps g' (<[i := e]> (h_lnk g')) (h_dat g')).
 Proof.
-  intros Fr Hi. apply Frame_upd_maps; [done| |done].
+  intros Fr Hi. apply Ext_upd_maps; [done| |done].
   intros k Hk. rewrite lookup_insert_ne; [done|]. intros ->. done.
 Qed.
-Lemma Frame_st_dat ns ss g g' i nd :
-  Frame ns ss g g' -> i ∈ ns -> Frame ns ss g (set_dat g' (<[i := nd]> (h_dat g'))).
+Lemma Ext_st_dat ns ss g g' i nd :
+  Ext ns ss g g' -> i ∈ ns -> Ext ns ss g (set_dat g' (<[i := nd]> (h_dat g'))).
 Proof.
-  intros Fr Hi. apply Frame_upd_maps; [done|done|].
+  intros Fr Hi. apply Ext_upd_maps; [done|done|].
   intros k Hk. rewrite lookup_insert_ne; [done|]. intros ->. done.
 Qed.
 
@@ -185,7 +185,7 @@ Section Alloc.
     by rewrite (proj2 (Nat.eqb_eq _ _) H4).
   Qed.
 
-  Lemma run_strdup_ok h b s : str_at h b s -> existsb (Z.eqb 0) s = true -> oracle (h_req h) = false ->
+  Lemma run_strdup_ok h b s : str_is h b s -> existsb (Z.eqb 0) s = true -> oracle (h_req h) = false ->
     cJSON_strdup oracle (Some b) h = Ret (Some (h_next h), alloc_str_h h (cstr s ++ [0%Z])).
   Proof.
     intros [Hl Hs] Hz Ho. unfold cJSON_strdup. cbn [is_null].
@@ -205,7 +205,7 @@ Section Alloc.
     rewrite (bindM_Ret _ _ _ _ _ Hst).
     unfold ret, alloc_str_h, h1. cbn. do 3 f_equal. by rewrite insert_insert.
   Qed.
-  Lemma run_strdup_fail h b s : str_at h b s -> existsb (Z.eqb 0) s = true -> oracle (h_req h) = true ->
+  Lemma run_strdup_fail h b s : str_is h b s -> existsb (Z.eqb 0) s = true -> oracle (h_req h) = true ->
     cJSON_strdup oracle (Some b) h = Ret (None, bump h).
   Proof.
     intros [Hl Hs] Hz Ho. unfold cJSON_strdup. cbn [is_null].
@@ -216,13 +216,13 @@ Section Alloc.
   Qed.
 End Alloc.
 
-Lemma Frame_bump g : Closed g -> Frame [] [] g (bump g).
+Lemma Ext_bump g : Closed g -> Ext [] [] g (bump g).
 Proof.
   intros C. constructor; cbn; try done; try lia.
   intros b Hb. by apply elem_of_nil in Hb.
 Qed.
 
-Lemma Frame_alloc_node g : Closed g -> Frame [h_next g] [] g (alloc_node_h g).
+Lemma Ext_alloc_node g : Closed g -> Ext [h_next g] [] g (alloc_node_h g).
 Proof.
   intros C. constructor; cbn; try done; try lia.
   - intros k Hk. apply not_elem_of_cons in Hk as [Hk _]. by rewrite lookup_insert_ne.
@@ -236,7 +236,7 @@ Proof.
     intros Hin. apply elem_of_union in Hin as [Hin|Hin]; [|done]. apply elem_of_singleton in Hin. lia.
 Qed.
 
-Lemma Frame_alloc_str g s : Closed g -> Frame [] [h_next g] g (alloc_str_h g s).
+Lemma Ext_alloc_str g s : Closed g -> Ext [] [h_next g] g (alloc_str_h g s).
 Proof.
   intros C. constructor; cbn; try done; try lia.
   - intros k Hk. apply not_elem_of_cons in Hk as [Hk _]. by rewrite lookup_insert_ne.
@@ -304,11 +304,11 @@ Lemma nd_at_set_dat_ne h i j nd nd' : nd_at h i nd -> i <> j -> nd_at (set_dat h
 Proof. intros [H1 H2] Hne. split; [done|]. cbn. by rewrite lookup_insert_ne. Qed.
 Lemma lk_at_set_dat h i e D : lk_at h i e -> lk_at (set_dat h D) i e.
 Proof. intros [H1 H2]. split; done. Qed.
-Lemma str_at_set_dat h b s D : str_at h b s -> str_at (set_dat h D) b s.
+Lemma str_is_set_dat h b s D : str_is h b s -> str_is (set_dat h D) b s.
 Proof. intros [H1 H2]. split; done. Qed.
 Lemma nd_at_set_lnk h i nd L : nd_at h i nd -> nd_at (set_lnk h L) i nd.
 Proof. intros [H1 H2]. split; done. Qed.
-Lemma str_at_set_lnk h b s L : str_at h b s -> str_at (set_lnk h L) b s.
+Lemma str_is_set_lnk h b s L : str_is h b s -> str_is (set_lnk h L) b s.
 Proof. intros [H1 H2]. split; done. Qed.
 Lemma lk_at_set_lnk_ne h i j e e' : lk_at h i e -> i <> j -> lk_at (set_lnk h (<[j := e']> (h_lnk h))) i e.
 Proof. intros [H1 H2] Hne. split; [done|]. cbn. by rewrite lookup_insert_ne. Qed.
